@@ -348,15 +348,21 @@ def run(rep, tier, seed):
     texts_by_class["unicode"] = unicode_texts(rng, 1500 if tier == "quick" else 60000)
     texts_by_class["deep"] = deep_texts()
     texts_by_class["token-pairs"] = token_pair_texts()
+    if tier == "thorough":
+        _libfuzzer_class(rep, texts_by_class, seed)
     texts_by_class["bif"] = bif_sweep(rng, bifs, tier)
     # iteration domains outside the property's bound (size product of a few thousand) are legitimate
     # long-running work, not hangs: keep mutated texts with such ranges out of the workload
     big_range = re.compile(r"\d{4,}[\s)]*\.\.|\.\.[\s(-]*\d{4,}|\d\s*\*\*\s*\d{3,}")
-    for cls in ("mutated", "grammar-mutated", "corpus"):
+    for cls in ("mutated", "grammar-mutated", "corpus", "libfuzzer"):
+        if cls not in texts_by_class:
+            continue
         before = len(texts_by_class[cls])
         texts_by_class[cls] = [t for t in texts_by_class[cls] if not big_range.search(t)]
         rep.extra["outside_domain_skipped:" + cls] = before - len(texts_by_class[cls])
     scs = scopes()
+    fscs = dict(scs)
+    fscs.update(FUZZ_SCOPES)
     cases, meta = [], []
     for cls, texts in texts_by_class.items():
         rep.extra["texts:" + cls] = len(texts)
@@ -367,10 +373,12 @@ def run(rep, tier, seed):
                 combos = [("expr", "populated"), ("unary", "populated"), ("boxed", "empty"), ("textual", "nested")]
             elif cls == "corpus":
                 combos = [(e, s) for e in ENTRIES for s in scs]
+            elif cls == "libfuzzer":
+                combos = [(e, s) for e in ENTRIES for s in ("empty", "fuzz1", "fuzz2")]
             else:
                 combos = [(rng.choice(ENTRIES), rng.choice(list(scs))), ("expr", rng.choice(list(scs)))]
             for entry, sname in combos:
-                cases.append({"op": "evalmany", "scope": scs[sname], "entry": entry, "texts": group})
+                cases.append({"op": "evalmany", "scope": fscs[sname], "entry": entry, "texts": group})
                 meta.append((cls, entry, sname, group))
     # parse_name / parse_longest_name
     name_texts = texts_by_class["corpus"][:2000] + texts_by_class["mutated"][:4000] + texts_by_class["unicode"][:1500] + texts_by_class["deep"]
@@ -435,6 +443,38 @@ def run(rep, tier, seed):
                 rep.violation("%s:%s" % (sig, variant if variant == "asan" else "any"), "process died / hung on %s entry=%s scope=%s text=%r: %s" % (variant, entry, sname, t[:200], json.dumps(res)[:500]), {"variant": variant, "case": c})
     if rep.evaluations < total_texts:
         rep.inconclusive_reason("observed %d of %d planned executions on dbg+rel" % (rep.evaluations, total_texts))
+
+
+# the scopes of harness/fuzz/fuzz_targets/fuzz_feel.rs (kind % 3 = 1, 2)
+_F1 = [["a", {"n": "1"}], ["b", {"n": "2.5"}], ["s", {"s": "abc"}], ["l", [{"n": "1"}, {"n": "2"}, {"n": "3"}]], ["c", {"c": [["x", {"n": "1"}], ["y", {"c": [["z", {"s": "q"}]]}]]}], ["d", {"d": "2021-03-04"}], ["t", None]]
+FUZZ_SCOPES = {"fuzz1": [_F1], "fuzz2": [_F1 + [[["net", "income"], True], [["net", "income", "/", "loss"], False], [["a", "-", "b"], False]]]}
+
+
+def _libfuzzer_class(rep, texts_by_class, seed):
+    """coverage-guided generation (libFuzzer on the ASan build of harness/fuzz): crash artifacts and the final corpus become
+    one more class of texts; the verdict on each is the driver's, as for every other class"""
+    import fuzzing
+
+    seeds = [b"\x08" + t.encode("utf-8") for t in texts_by_class["corpus"] if len(t) < 400]
+    try:
+        crashes, stats = fuzzing.run("fuzz_feel", seeds, 300, rep.workdir, max_len=600, seed=seed, dictionary=KEYWORDS)
+    except runner.Inconclusive as ex:
+        print("NOTE property=C05 libFuzzer slot skipped: %s" % str(ex)[:300])
+        rep.extra["libfuzzer"] = "unavailable: " + str(ex)[:300]
+        return
+    texts = []
+    for blob in crashes + stats.pop("corpus"):
+        try:
+            texts.append(blob[1:].decode("utf-8"))
+        except UnicodeDecodeError:
+            pass
+    texts_by_class["libfuzzer"] = sorted(set(t for t in texts if t))
+    stats["crash_candidates_replayed_in_driver"] = len(crashes)
+    rep.extra["libfuzzer"] = stats
+
+
+KEYWORDS = ["for ", " in ", " return ", "some ", "every ", " satisfies ", "if ", " then ", " else ", " between ", " and ", " or ", "instance of ", "function(", "not(", "null", "true", "false", "..", "**", "date(", "time(",
+            "duration(", "date and time(", "@\"", "list<", "context<", "range<", "->", "item", "?", "/*", "*/", "//", "\\u", "\\U"]
 
 
 def _text_class(cls, t):
